@@ -35,6 +35,9 @@ func (m *mModule) sexp() string {
 		fmt.Fprintf(&b, " (%s %s (wg %d %d %d) (uses %s) (calls %s))", e.name, e.stage, e.wg[0], e.wg[1], e.wg[2], ints(e.uses), ints(e.calls))
 	}
 	b.WriteString(") (io")
+	if m.posInv {
+		b.WriteString(" (inv - -)")
+	}
 	for _, f := range m.io {
 		fmt.Fprintf(&b, " (%d %s %s)", f.loc, orDash(f.interp), orDash(f.sampling))
 	}
